@@ -1,5 +1,5 @@
 """Text field rules (C17; X-utf8 is also relied on by the C09/C02 residue)."""
-from terms import FA, show, mk, ty_of, is_const, const_val, T, subterms
+from terms import err_variant, FA, show, mk, ty_of, is_const, const_val, T, subterms
 from facts import callee_of
 from intervals import Intervals
 from paths import enum_paths
@@ -283,6 +283,61 @@ def rule_char_maps(prog, res):
         res.ob("X-map", "chars().next() | yields to_char of the next stored byte, unmodified", ok and somes >= 1, str(calls), f.loc)
 
 
+def prefix_loop(prog, f, tp):
+    """One loop that offers every item of the input's own iterator to `tp` (a try_push) in order and leaves at the first refusal.
+    -> (ok, detail, number of try_push calls)"""
+    fa = FA(f, prog)
+    tps = [(b, t) for b, t in f.calls() if callee_of(t) == tp]
+    ok = False
+    d = ""
+    if len(tps) == 1 and len(f.loops()) == 1:
+        b, t = tps[0]
+        h, body = list(f.loops().items())[0]
+        r = fa.call_term(b)
+        # is_err(result) true  -> leaves the loop ; false -> continues
+        for x in sorted(body):
+            tt = f.term(x)
+            if tt["k"] == "switch":
+                c = fa.op_term(tt["discr"], (x, len(f.blocks[x]["stmts"])))
+                if c.op == "call" and c.args[0] == "core::result::Result::<T, E>::is_err" and c.args[1][0] is r:
+                    for s in f.succ(x):
+                        eg = fa.edge_guard(x, s)
+                        truth = any((g[1] == "eq" and g[2] == 1) or (g[1] == "ne" and 0 in g[2]) for g in eg)
+                        if truth and s not in body:
+                            ok = True
+                            d = "break on the first Err of try_push"
+                if c.op == "discr" and c.args[0] is r:
+                    # match on the result itself (a desugared try_for_each / `?`): Err leaves the loop, Ok goes on
+                    leaves = {}
+                    for s in f.succ(x):
+                        for g in fa.edge_guard(x, s):
+                            if g[0] is c and g[1] == "eq":
+                                leaves[g[2]] = not _stays_in_loop(f, s, body)
+                    if leaves.get(1) is True and leaves.get(0) is False:
+                        ok = True
+                        d = "leaves the loop on the first Err of try_push (match on the result)"
+        # all characters are offered in order: the loop is driven by the input iterator itself - chars() of the argument, or the argument
+        # iterator - through into_iter only; an adaptor that limits, skips or filters (take, skip, step_by, filter ..) drops characters
+        nxs = [(bb, tt) for bb, tt in f.calls() if bb in body and (callee_of(tt) or "").endswith("::next")]
+        drive = False
+        if len(nxs) == 1:
+            src = libmodel.iterator_source(fa.call_term(nxs[0][0]), fa)
+            if src is not None:
+                y = src[0]
+                chain = []
+                while y.op == "call" and y.args[1] and len(chain) < 6:
+                    chain.append(y.args[0])
+                    y = y.args[1][0]
+                while y.op in ("ref", "mem", "memval"):
+                    y = y.args[0]
+                plain = all(c.endswith("::into_iter") or c == "core::str::<impl str>::chars" for c in chain)
+                drive = plain and y.op == "arg"
+        if ok and not drive:
+            ok = False
+            d = "the loop is not driven by the input's own iterator (an adaptor limits or filters the characters offered)"
+    return ok, d, len(tps)
+
+
 def rule_capacity(prog, res):
     """X-cap: try_push guards dominate the writes; from_iter / From<&str> stop at the first character that does not fit."""
     _sem = char_semantics(prog)
@@ -360,55 +415,8 @@ def rule_capacity(prog, res):
             res.missing("X-cap", path)
             continue
         res.fn(f)
-        fa = FA(f, prog)
-        tps = [(b, t) for b, t in f.calls() if callee_of(t) == tp]
-        ok = False
-        d = ""
-        if len(tps) == 1 and len(f.loops()) == 1:
-            b, t = tps[0]
-            h, body = list(f.loops().items())[0]
-            r = fa.call_term(b)
-            # is_err(result) true  -> leaves the loop ; false -> continues
-            for x in sorted(body):
-                tt = f.term(x)
-                if tt["k"] == "switch":
-                    c = fa.op_term(tt["discr"], (x, len(f.blocks[x]["stmts"])))
-                    if c.op == "call" and c.args[0] == "core::result::Result::<T, E>::is_err" and c.args[1][0] is r:
-                        for s in f.succ(x):
-                            eg = fa.edge_guard(x, s)
-                            truth = any((g[1] == "eq" and g[2] == 1) or (g[1] == "ne" and 0 in g[2]) for g in eg)
-                            if truth and s not in body:
-                                ok = True
-                                d = "break on the first Err of try_push"
-                    if c.op == "discr" and c.args[0] is r:
-                        # match on the result itself (a desugared try_for_each / `?`): Err leaves the loop, Ok goes on
-                        leaves = {}
-                        for s in f.succ(x):
-                            for g in fa.edge_guard(x, s):
-                                if g[0] is c and g[1] == "eq":
-                                    leaves[g[2]] = not _stays_in_loop(f, s, body)
-                        if leaves.get(1) is True and leaves.get(0) is False:
-                            ok = True
-                            d = "leaves the loop on the first Err of try_push (match on the result)"
-            # all characters are offered in order: the loop is driven by the input iterator itself - chars() of the argument, or the argument
-            # iterator - through into_iter only; an adaptor that limits, skips or filters (take, skip, step_by, filter ..) drops characters
-            nxs = [(bb, tt) for bb, tt in f.calls() if bb in body and (callee_of(tt) or "").endswith("::next")]
-            drive = False
-            if len(nxs) == 1:
-                src = libmodel.iterator_source(fa.call_term(nxs[0][0]), fa)
-                if src is not None:
-                    y = src[0]
-                    chain = []
-                    while y.op == "call" and y.args[1] and len(chain) < 6:
-                        chain.append(y.args[0])
-                        y = y.args[1][0]
-                    while y.op in ("ref", "mem", "memval"):
-                        y = y.args[0]
-                    plain = all(c.endswith("::into_iter") or c == "core::str::<impl str>::chars" for c in chain)
-                    drive = plain and y.op == "arg"
-            if ok and not drive:
-                ok = False
-                d = "the loop is not driven by the input's own iterator (an adaptor limits or filters the characters offered)"
+        ok, d, ntp = prefix_loop(prog, f, tp)
+        tps = [1] * ntp
         if not ok and path.endswith("From<&str>>::from"):
             # = value.chars().collect(): the loop is the one of FromIterator<char> (checked above)
             calls = [callee_of(tt) for bb, tt in f.calls()]
@@ -546,7 +554,9 @@ def rule_utf8_writers(prog, res):
         for i, s in enumerate(f.blocks[b]["stmts"]):
             if s["k"] == "assign" and s["place"]["local"] == 0 and s["rv"]["k"] == "aggregate" and s["rv"].get("vname") == "Err":
                 v = fa.rv_term(s["rv"], (b, i))
-                errs.add(v.args[3][0].args[2])
+                _ev = err_variant(v)
+                if _ev is not None:
+                    errs.add(_ev)
     res.ob("X-utf8", "1029 decode | invalid UTF-8 is reported as InvalidUtf8String", "InvalidUtf8String" in errs, str(sorted(errs)), f.loc)
     # exactness: text is rejected ONLY when the body is too short or the bytes are not UTF-8 (any other rejection would
     # refuse text the encoder can produce)
@@ -561,7 +571,9 @@ def rule_utf8_writers(prog, res):
         for i, s_ in enumerate(f.blocks[b]["stmts"]):
             if s_["k"] == "assign" and s_["place"]["local"] == 0 and s_["rv"]["k"] == "aggregate" and s_["rv"].get("vname") == "Err":
                 v = fa.rv_term(s_["rv"], (b, i))
-                variant = v.args[3][0].args[2]
+                variant = err_variant(v)
+                if variant is None:
+                    continue
                 gs = [g for g in fa.guards(b) if g[4] == "switch"]
                 reason = None
                 for g in gs:
@@ -660,7 +672,9 @@ def rule_limits(prog, res):
         for i, s in enumerate(f.blocks[b]["stmts"]):
             if s["k"] == "assign" and s["place"]["local"] == 0 and s["rv"]["k"] == "aggregate" and s["rv"].get("vname") == "Err":
                 v = fa.rv_term(s["rv"], (b, i))
-                errs.add(v.args[3][0].args[2])
+                _ev = err_variant(v)
+                if _ev is not None:
+                    errs.add(_ev)
     res.ob("X-lim", "1029 encode | over-long text is refused with an error", bool(errs), str(sorted(errs)), f.loc)
     # exactness of the refusal: an Err aggregate is returned only under a count limit test
     nerr = 0
